@@ -238,7 +238,9 @@ func MutateHost(t *rapid.T, host string) string {
 			return host + ".:443"
 		}
 	case 10:
-		return Pick(t, []string{"127.0.0.1", "127.0.0.1:80", "[::1]:8080", "10.1.2.3"}, "ip")
+		// IP literals are hosts like any other: an IPv6 literal keeps its brackets when it has no port (what a client sends
+		// for the default port) and a {param} label captures it whole, as it has no dot
+		return Pick(t, []string{"127.0.0.1", "127.0.0.1:80", "[::1]:8080", "10.1.2.3", "[::1]", "[::1]", "[2001:db8::1]"}, "ip")
 	case 11:
 		return ""
 	case 12:
